@@ -476,7 +476,8 @@ def gen_inject(rng, entry, cbname):
          "mode": rng.choice(["subject", "subject", "hot", "cold"]),
          "a": gen_timeline(rng, entry in NEEDS_ERROR_SOURCE or (cbname == "on_error"), force_complete=(cbname == "on_completed")),
          "b": gen_timeline(rng), "inner": inner}
-    c["exc"] = "injected" if rng.random() < 0.45 else rng.choice(EXC_KINDS[1:])
+    r = rng.random()  # StopIteration / KeyError are over-weighted: iterator- and mapping-based operators catch them internally
+    c["exc"] = "injected" if r < 0.4 else ("StopIteration" if r < 0.62 else ("KeyError" if r < 0.74 else rng.choice(EXC_KINDS[3:])))
     if entry == "generate_with_relative_time":
         c["delay"] = rng.choice([0, 0, 5, 10])
     if entry in GROUP_ENTRIES:
